@@ -254,3 +254,40 @@ PLANS["C08"] = {
         exhaustive=lambda tier: False),
     "floor": floor_counters(nested_batches_run=100, park_checks=100),
 }
+
+# ------------------------------------------------------------------------------------------- C09 / C10
+
+ITER_RULE = ("cases = stable points: after each burst of sigqueue'd signals (unique seq; aimed at victim threads and at the consumer "
+             "itself; optional delays at IT_A_STORED/PIPE_WAKE/EX_* and a real delivery nested on the consumer at IT_FLUSH_*/IT_SCAN/"
+             "IT_PS_*/IT_HAS_BEFORE_READ/EX_LOAD; add_signal from another thread mid-run) the harness waits until nothing is pending, "
+             "no dispatch bracket is open, the self-pipe is empty (FIONREAD) and the consumer is blocked in read/poll according to "
+             "/proc, then checks the log; instances cover {SignalOnly, WithRawSiginfo, WithOrigin} x {wait, forever, poll_signal}; "
+             "distinct = distinct (instance kind, Director phase, burst class) and (instance kind, site at which a delivery nested)")
+
+
+def iter_steps(tier, seed, extra=0):
+    q = tier == "quick"
+    n = 2 if q else 12
+    return [native("iter-%d" % i, ["w_iter", "--instances", 9, "--rounds", 40 if q else 400, "--seed", seed * 100 + i + extra],
+                   timeout=300 if q else 1800) for i in range(n)] + \
+           ([] if q else [asan("iter-asan", ["w_iter", "--instances", 9, "--rounds", 100, "--seed", seed + 5 + extra], leaks=False, timeout=1800)])
+
+
+PLANS["C09"] = {
+    "steps": lambda tier, seed: iter_steps(tier, seed),
+    "evidence": assemble("exploration", ITER_RULE + "; C09 oracle: at a stable point every watched signal whose last delivery began "
+                         "after its add_signal returned has a yield stamped after that delivery's DISPATCH_ENTER",
+                         ["'eventually obtains' is restated as 'never in the stable lost state at a quiescent point'",
+                          "the stable state is decided from /proc thread state + FIONREAD + SigPnd, not from elapsed time"]),
+    "floor": floor_counters(stable_points_checked=100, deliveries_nested_on_consumer=20, add_signal_midrun=3),
+}
+
+PLANS["C10"] = {
+    "steps": lambda tier, seed: iter_steps(tier, seed, extra=50),
+    "evidence": assemble("exploration", ITER_RULE + "; C10 oracle (every log event): yields(s) <= deliveries of s begun since "
+                         "add_signal(s) was called, s is watched, every raw record equals byte-for-byte the copy an independent witness "
+                         "action took of the delivery with the same seq, no record twice, records of one signal in delivery order",
+                         ["deliveries are counted from DISPATCH_ENTER of every bracket of that signal, an upper bound that is exact for "
+                          "signals watched since construction"]),
+    "floor": floor_counters(records_compared_bytewise=100, yields=500),
+}
